@@ -39,6 +39,7 @@ PROGRAM_CFG = {
     'rets': ['value', 'stop', 'unsuccessful', 'kill', 'raise'],
     'effects': ['out', 'status'],
     'kwargs': True,
+    'raw_kill': True,
     'p_async': 0.3,
     'max_awaits': 1,
 }
@@ -90,7 +91,12 @@ def run(case):
     runner = persist.RestartRun(case['program'], case.get('crashes'), case.get('media'), case.get('loader', 'default'))
     try:
         proc = runner.run()
-        _oracle(runner, proc, result, case)
+        if runner.load_error is not None:
+            result.nontrivial = True
+            result.violate('restore_failed', type(runner.load_error).__name__,
+                           f'a checkpoint taken before a step could not be loaded: {runner.load_error!r}')
+        else:
+            _oracle(runner, proc, result, case)
         result.events = list(runner.world.events)
         result.sim_time = runner.sim_time
         result.ticks = runner.ticks
